@@ -2,6 +2,7 @@ package engine
 
 import (
 	"bytes"
+	"encoding/json"
 	"fmt"
 	"net/http"
 	"net/url"
@@ -190,9 +191,14 @@ func (r *Run) wasStored(o *OResp) bool {
 	return false
 }
 
+// jsonEsc: s as encoding/json writes it inside a string (with its default escaping of <, >, & and of the
+// line separators), without the quotes.
 func jsonEsc(s string) string {
-	s = strings.ReplaceAll(s, `\`, `\\`)
-	return strings.ReplaceAll(s, `"`, `\"`)
+	b, err := json.Marshal(s)
+	if err != nil || len(b) < 2 {
+		return s
+	}
+	return string(b[1 : len(b)-1])
 }
 
 func bodySIDIn(v []byte) int { return firstBodyOrSeq(v) }
